@@ -243,26 +243,35 @@ def channel_ready_points(S, D):
     pre = [z3.Or(X.zint(st0.d) == ACR, X.zint(st0.d) == CR),
            bits0 == sum([z3.If(b, 1 << k, 0) for b, k in zip(fb, allowed)], z3.IntVal(0))]
     others = [X.Opaque('arg%d' % i) for i in range(2, len(f.params))]
+    n_first[0] = 0            # one call per engine: every point comparison is "the repeated message's point"
+    THEIR = fb[allowed.index(bit('THEIR_CHANNEL_READY'))]
+    nd0, nb0 = point_byte(ctx0, 'counterparty_next_commitment_point')
+    cd0, cb0 = point_byte(ctx0, 'counterparty_current_commitment_point')
     rv1 = S.call(E, f, [ch, msg] + others, mem)
     ret1 = S.ret_guard
-    n_first[0] = len(calls_eq)
     ctx1 = rd(mem[ch.cell], FC, 'context', 'ln::channel::ChannelContext<SP>')
     nd1, nb1 = point_byte(ctx1, 'counterparty_next_commitment_point')
     cd1, cb1 = point_byte(ctx1, 'counterparty_current_commitment_point')
     st1 = rd(ctx1, CC, 'channel_state', CS)
-    rv2 = S.call(E, f, [ch, msg2] + others, mem)
-    ret2 = S.ret_guard
-    ctx2 = rd(mem[ch.cell], FC, 'context', 'ln::channel::ChannelContext<SP>')
-    nd2, nb2 = point_byte(ctx2, 'counterparty_next_commitment_point')
-    cd2, cb2 = point_byte(ctx2, 'counterparty_current_commitment_point')
-    ok1, ok2 = X.zint(rv1.d) == 0, X.zint(rv2.d) == 0
-    unchanged = z3.And(nd2 == nd1, z3.Implies(nd1 == 1, nb2 == nb1), cd2 == cd1, z3.Implies(cd1 == 1, cb2 == cb1))
-    claim = z3.Implies(z3.And(ret1, ok1, ret2), z3.And(unchanged, z3.Implies(ok2, same_point2)))
+    fl1 = E.en_payload(st1, 'AwaitingChannelReady', ACR, 0, 'ln::channel::AwaitingChannelReadyFlags', mem, 'spec')
+    bits1 = X.zint(E.read_path(fl1, (('f', 0, 'u32'),), mem, True, 'spec').t)
+    tb = bit('THEIR_CHANNEL_READY')
+    their_after = z3.Or(X.zint(st1.d) == CR, z3.And(X.zint(st1.d) == ACR, (bits1 / (1 << tb)) % 2 == 1))
+    recorded = z3.Or(X.zint(st0.d) == CR, z3.And(X.zint(st0.d) == ACR, THEIR))
+    ok1 = X.zint(rv1.d) == 0
+    unchanged = z3.And(nd1 == nd0, z3.Implies(nd0 == 1, nb1 == nb0), cd1 == cd0, z3.Implies(cd0 == 1, cb1 == cb0))
+    claim = z3.And(z3.Implies(z3.And(recorded, ret1), z3.And(unchanged, z3.Implies(ok1, same_point2))),
+                   z3.Implies(z3.And(z3.Not(recorded), ret1, ok1), their_after))
+    ix3 = [allowed.index(bit(nm)) for nm in ('THEIR_CHANNEL_READY', 'OUR_CHANNEL_READY', 'WAITING_FOR_BATCH')]
+    cases = []
+    for var in (ACR, CR):
+        for combo in range(8):
+            cases.append(z3.And(X.zint(st0.d) == var, *[(fb[ix3[j]] if (combo >> j) & 1 else z3.Not(fb[ix3[j]])) for j in range(3)]))
     from engine_m.session import Binding
     bat = Binding('channel_ready_battery', [z3.IntVal(0)], [z3.If(claim, 0, 1)], parse=lambda t: [0 if t[0] == '0' else 1], line_fn=lambda v: '0',
                   which='oracle_tu', via_solver=True, domain=[(0, 0)], panic=False)
     S.prove(ids[0], E, pre, claim,
-            "after the peer's channel_ready has been accepted once, a further channel_ready - in whatever state the first one left the channel (still waiting for the rest of a funding batch, our own channel_ready sent or not, channel ready) - changes neither of the peer's announced commitment points and is accepted only if it names the expected point: the point the first revoke_and_ack is checked against (C05.c) cannot be replaced by re-sending channel_ready",
-            [bat], bounds='two consecutive calls of channel_ready (whole function up to get_announcement_sigs) from an arbitrary AwaitingChannelReady / ChannelReady state, the real flag arithmetic of the macro-generated state-flag types; points observed through their first byte (free symbols), point comparison a free boolean',
-            assumptions=['only declared flags are set in the AwaitingChannelReady state (representation invariant of the macro-generated flag types; bit numbers read from mod state_flags)', 'claims are about executions in which neither call panics (debug assertion: OUR_CHANNEL_READY and WAITING_FOR_BATCH are never set together)'])
-    S.witness(ids[2], E, pre + [ret1, ok1, ret2, ok2], z3.And(X.zint(st0.d) == ACR, nd1 == 1))
+            "an accepted channel_ready is RECORDED (THEIR_CHANNEL_READY set, or the channel becomes ready), and once it is recorded - in whatever state that leaves the channel: still waiting for the rest of a funding batch, our own channel_ready sent or not, channel ready - a further channel_ready changes neither of the peer's announced commitment points and is accepted only if it names the expected point. By induction over the messages: the point the first revoke_and_ack is checked against (C05.c) cannot be replaced by re-sending channel_ready",
+            [bat], split=cases, bounds='one call of channel_ready (whole function up to get_announcement_sigs) from an arbitrary AwaitingChannelReady / ChannelReady state: the inductive step of "recorded stays recorded and then nothing moves"; the real flag arithmetic of the macro-generated state-flag types; points observed through their first byte (free symbols), point comparison a free boolean',
+            assumptions=['only declared flags are set in the AwaitingChannelReady state (representation invariant of the macro-generated flag types; bit numbers read from mod state_flags)', 'claims are about executions that do not panic (debug assertion: OUR_CHANNEL_READY and WAITING_FOR_BATCH are never set together)'])
+    S.witness(ids[2], E, pre + [ret1, ok1, z3.Not(recorded)], z3.And(X.zint(st0.d) == ACR, nd1 == 1))
